@@ -70,11 +70,12 @@ def grid_cause(fd, aux):
         return "other"
     t = aux.split(" ")[3:]
     M = 1 << fd.get("w", 8)
-    rational, half, sconst = False, False, False
+    rational, half, sconst, nofreq, notred = False, False, False, False, False
     mn = -(M >> 1) if fd.get("sg") else 0
     for i in range(0, len(t) - 4, 5):
         v, fn, fdn, vn, vd = t[i:i + 5]
         if fn == "none":
+            nofreq = True
             continue
         fn, fdn, vn, vd = int(fn), int(fdn), int(vn), int(vd)
         if fn != 0 and (fdn != 1 or vd != 1):
@@ -83,12 +84,48 @@ def grid_cause(fd, aux):
             half = True
         if fn == 0 and vd == 1 and fd.get("sg") == 1 and not (mn <= vn <= mn + M - 1):
             sconst = True
+        if fn == M and fdn == 1 and vd == 1:
+            v2 = vn + M if (not fd.get("sg") and vn < 0) else vn
+            if not (mn <= v2 <= mn + M - 1):
+                notred = True
     if rational:
         return "rational-frequency"
     if half and fd.get("ov") == 2:
         return "impossible-frequency-below-wrap"
     if sconst and fd.get("ov") == 0:
         return "signed-constant-out-of-range"
+    if notred and fd.get("ov") in (0, 2):
+        return "frequency-equals-modulus-value-not-reduced"
+    if nofreq and fd.get("ov") == 0:
+        return "no-frequency-variable-skipped"
+    return "other"
+
+
+def box_cause(fd, res, case):
+    """Interval::wrap_assign: a wrapped variable whose interval in the argument has width exactly 2^w"""
+    from fractions import Fraction as F
+    if not res:
+        return "other"
+    t = res.split(" ")
+    n = fd["dim"]
+    i = t.index("cons", t.index("arg")) + 2
+    k = int(t[i - 1])
+    lo, hi = {}, {}
+    for _ in range(k):
+        kind, b, co = t[i], int(t[i + 1]), [int(x) for x in t[i + 2:i + 2 + n]]
+        nz = [j for j, c in enumerate(co) if c != 0]
+        if len(nz) == 1:
+            j = nz[0]; v = F(-b, co[j])
+            if kind == "=": lo[j] = hi[j] = v
+            elif co[j] > 0: lo[j] = v
+            else: hi[j] = v
+        i += 2 + n
+    ct = case.split(" ")
+    vi = ct.index("vars"); nv = int(ct[vi + 1]); vs = [int(x) for x in ct[vi + 2:vi + 2 + nv]]
+    M = 1 << fd.get("w", 8)
+    for v in vs:
+        if v in lo and v in hi and hi[v] - lo[v] == M:
+            return "interval-width-exactly-modulus"
     return "other"
 
 
@@ -143,8 +180,16 @@ def run(chk):
     common.coq_extract("Extract_wrap.v", ["wrap.ml", "wrap.mli"], deps=COQ_FILES + ["Base/Sys.v", "Base/Sup.v", "Poly/PolyOps.v"])
     judge = common.ocaml_build("judge_wrap", ["gen/wrap.mli", "gen/wrap.ml", "zutil_wrap.ml", "judge_wrap.ml"])
     exe = common.compile_harness("run_wrap.cc")
-    work = os.path.join(common.BUILD, "c17")
-    os.makedirs(work, exist_ok=True)
+    import tempfile, shutil
+    os.makedirs(os.path.join(common.BUILD, "c17"), exist_ok=True)
+    work = tempfile.mkdtemp(prefix="run-", dir=os.path.join(common.BUILD, "c17"))
+    try:
+        _run_cases(chk, judge, exe, work)
+    finally:
+        shutil.rmtree(work, ignore_errors=True)
+
+
+def _run_cases(chk, judge, exe, work):
 
     if chk.replay:
         rp = json.load(open(chk.replay))
@@ -170,6 +215,7 @@ def run(chk):
     rc, out = common.sh([judge, cf, of], timeout=3000)
     stat, cov, nontriv = {}, {}, set()
     aux = {l.split(" ")[1]: l for l in obs if l.startswith("aux ")}
+    resl = {l.split(" ")[1]: l for l in obs if l.startswith("res ")}
     if rc != 0:
         raise RuntimeError("judge failed rc=%s: %s" % (rc, out[-1500:]))
     for l in out.split("\n"):
@@ -200,6 +246,8 @@ def run(chk):
                 site = GENERIC_SITE if generic else {"BOX": "Box::wrap_assign", "GRID": "Grid::wrap_assign"}.get(fd.get("dom"), "wrap_assign")
             if fd.get("dom") == "GRID" and fd.get("cmd") == "wrap":
                 tag = grid_cause(fd, aux.get(cid))
+            if fd.get("dom") == "BOX" and fd.get("cmd") == "wrap":
+                tag = box_cause(fd, resl.get(cid), case)
             if fd.get("cmd") == "cip":
                 tag = cip_cause(case, detail)
             info = {"site": site, "kind": kind, "domain": fd.get("dom"), "cause": tag}
